@@ -6,6 +6,7 @@
    the abstract leaf converters (path styling, image, text, use, nested svg, clip/mask/filter resolution). *)
 From Coq Require Import String.
 From RV Require Import Model.Base Model.ConvBase Gen.ConvTables Model.Converter Proofs.Converter.
+From RV Require Import Model.ConvCache Proofs.ConvCache.
 Local Open Scope string_scope.
 
 (* An ignorable element (text node; element that is neither graphic nor g/switch/svg - defs, gradients,
@@ -34,10 +35,13 @@ Theorem C11_zero_size_is_invalid : forall t a, zero_size t a = true -> shape_val
 Proof. exact zero_size_invalid. Qed.
 Print Assumptions C11_zero_size_is_invalid.
 
-(* ... and a zero-size / invalid shape WITH a `filter` attribute (filter function such as blur(2), or a link): convert_group goes
-   on to filter::convert.  If that yields no filter and leaves the cache alone when the element has no bounding box - which
-   is what parser/filter.rs does for filter functions as long as the facts of `filter_facts` hold (no bbox => return before
-   anything; the filter id is generated after the region check) - nothing remains: no group, no counter moved. *)
+(* ... and a zero-size / invalid shape WITH a `filter` attribute (`none`, a filter function such as blur(2), a link) and ANY
+   clip-path / mask link (dd154cd; before, the clip-path / mask of such an element were resolved - and an objectBoundingBox
+   mask registered in cache.masks - before the element was dropped): convert_group resolves the filters of an element
+   without content first.  If that leaves the cache alone and yields no filter for an element without a bounding box
+   (filter_inert: what parser/filter.rs does for filter functions as long as `filter_facts` holds - no bbox => return before
+   anything, the filter id is generated after the region check -; Err for a missing link) nothing remains: no group, no
+   counter moved, no cache entry. *)
 Theorem C11_zero_shape_filter_noop :
   forall (state : Type) (st_in_clip st_no_markers : state -> bool)
          (conv_path : tag -> attrs -> conv_t state) (conv_image : attrs -> conv_t state) (conv_text : node -> conv_t state)
@@ -46,13 +50,110 @@ Theorem C11_zero_shape_filter_noop :
          (res_clip res_mask : string -> state -> option qrect -> cache -> option string * cache)
          (res_filter : attrs -> state -> option qrect -> cache -> option (list string) * cache)
          (t : tag) (a : attrs) (ch : nodes) (top clip : bool) (st : state) (c : cache) (p : ogroup),
-  tag_in t impl_shape_tags = true -> shape_valid t a = false -> a_clip a = None -> a_mask a = None ->
-  (forall g, og_ch g = [] -> obj_bbox g = None) ->
-  (forall c', res_filter a st None c' = (Some [], c')) ->
+  tag_in t impl_shape_tags = true -> shape_valid t a = false ->
+  empty_has_no_bbox obj_bbox -> filter_inert state res_filter a ->
   conv_elem state st_in_clip st_no_markers conv_path conv_image conv_text conv_use conv_nested_svg obj_bbox
             res_clip res_mask res_filter (Node (Some t) a ch) top clip st c p = (c, p).
 Proof. exact zero_shape_filter_noop. Qed.
 Print Assumptions C11_zero_shape_filter_noop.
+
+(* FULL strength over the property's own list (spec_nonrendered: text between elements, elements that are neither graphic
+   nor g/switch/svg, display:none, invalid transform, failing conditional attribute, zero-size / invalid shape WHATEVER
+   else it carries): the node converts to nothing - parent group and cache (generated-id counters, cache.clip_paths /
+   masks / filters / paint) unchanged.  junk_ok n = spec_nonrendered n /\ (filter attribute present -> filter_inert). *)
+Theorem C11_nonrendered_is_noop :
+  forall (state : Type) (st_in_clip st_no_markers : state -> bool)
+         (conv_path : tag -> attrs -> conv_t state) (conv_image : attrs -> conv_t state) (conv_text : node -> conv_t state)
+         (conv_use : attrs -> option (option tag * attrs) -> conv_t state -> conv_t state -> conv_t state)
+         (conv_nested_svg : attrs -> conv_t state -> conv_t state) (obj_bbox : ogroup -> option qrect)
+         (res_clip res_mask : string -> state -> option qrect -> cache -> option string * cache)
+         (res_filter : attrs -> state -> option qrect -> cache -> option (list string) * cache)
+         (n : node) (top clip : bool) (st : state) (c : cache) (p : ogroup),
+  empty_has_no_bbox obj_bbox -> junk_ok state res_filter n ->
+  conv_elem state st_in_clip st_no_markers conv_path conv_image conv_text conv_use conv_nested_svg obj_bbox
+            res_clip res_mask res_filter n top clip st c p = (c, p).
+Proof. exact nonrendered_is_noop. Qed.
+Print Assumptions C11_nonrendered_is_noop.
+
+(* ... for any list of such nodes between any siblings ... *)
+Theorem C11_nonrendered_context_free :
+  forall (state : Type) (st_in_clip st_no_markers : state -> bool)
+         (conv_path : tag -> attrs -> conv_t state) (conv_image : attrs -> conv_t state) (conv_text : node -> conv_t state)
+         (conv_use : attrs -> option (option tag * attrs) -> conv_t state -> conv_t state -> conv_t state)
+         (conv_nested_svg : attrs -> conv_t state -> conv_t state) (obj_bbox : ogroup -> option qrect)
+         (res_clip res_mask : string -> state -> option qrect -> cache -> option string * cache)
+         (res_filter : attrs -> state -> option qrect -> cache -> option (list string) * cache)
+         (l1 junk l2 : nodes) (top clip : bool) (st : state) (c : cache) (p : ogroup),
+  empty_has_no_bbox obj_bbox ->
+  (forall k1 j k2, junk = napp k1 (NCons j k2) -> junk_ok state res_filter j) ->
+  conv_children state st_in_clip st_no_markers conv_path conv_image conv_text conv_use conv_nested_svg obj_bbox
+                res_clip res_mask res_filter (napp l1 (napp junk l2)) top clip st c p =
+  conv_children state st_in_clip st_no_markers conv_path conv_image conv_text conv_use conv_nested_svg obj_bbox
+                res_clip res_mask res_filter (napp l1 l2) top clip st c p.
+Proof. exact nonrendered_context_free. Qed.
+Print Assumptions C11_nonrendered_context_free.
+
+(* ... and for any number of them inserted at any depth (insJ: same places as `ins`): the converted tree AND the cache -
+   hence the sequence of cache registrations and every generated id rendered content receives afterwards - are those of
+   the original document. *)
+Theorem C11_nonrendered_tree :
+  forall (state : Type) (st_in_clip st_no_markers : state -> bool)
+         (conv_path : tag -> attrs -> conv_t state) (conv_image : attrs -> conv_t state) (conv_text : node -> conv_t state)
+         (conv_use : attrs -> option (option tag * attrs) -> conv_t state -> conv_t state -> conv_t state)
+         (conv_nested_svg : attrs -> conv_t state -> conv_t state) (obj_bbox : ogroup -> option qrect)
+         (res_clip res_mask : string -> state -> option qrect -> cache -> option string * cache)
+         (res_filter : attrs -> state -> option qrect -> cache -> option (list string) * cache),
+  callbacks_ext state conv_use conv_nested_svg -> empty_has_no_bbox obj_bbox ->
+  forall (n n' : node) (top clip : bool) (st : state) (c : cache) (p : ogroup),
+  insJ (junk_ok state res_filter) n n' ->
+  conv_elem state st_in_clip st_no_markers conv_path conv_image conv_text conv_use conv_nested_svg obj_bbox
+            res_clip res_mask res_filter n' top clip st c p =
+  conv_elem state st_in_clip st_no_markers conv_path conv_image conv_text conv_use conv_nested_svg obj_bbox
+            res_clip res_mask res_filter n top clip st c p.
+Proof. exact nonrendered_tree. Qed.
+Print Assumptions C11_nonrendered_tree.
+
+Theorem C11_nonrendered_forest :
+  forall (state : Type) (st_in_clip st_no_markers : state -> bool)
+         (conv_path : tag -> attrs -> conv_t state) (conv_image : attrs -> conv_t state) (conv_text : node -> conv_t state)
+         (conv_use : attrs -> option (option tag * attrs) -> conv_t state -> conv_t state -> conv_t state)
+         (conv_nested_svg : attrs -> conv_t state -> conv_t state) (obj_bbox : ogroup -> option qrect)
+         (res_clip res_mask : string -> state -> option qrect -> cache -> option string * cache)
+         (res_filter : attrs -> state -> option qrect -> cache -> option (list string) * cache),
+  callbacks_ext state conv_use conv_nested_svg -> empty_has_no_bbox obj_bbox ->
+  forall (l l' : nodes) (top clip : bool) (st : state) (c : cache) (p : ogroup),
+  insJ_list (junk_ok state res_filter) true l l' ->
+  conv_children state st_in_clip st_no_markers conv_path conv_image conv_text conv_use conv_nested_svg obj_bbox
+                res_clip res_mask res_filter l' top clip st c p =
+  conv_children state st_in_clip st_no_markers conv_path conv_image conv_text conv_use conv_nested_svg obj_bbox
+                res_clip res_mask res_filter l top clip st c p.
+Proof. exact nonrendered_forest. Qed.
+Print Assumptions C11_nonrendered_forest.
+
+(* What resolving a link does to the cache, over the step tables cut from mask.rs / clippath.rs: for an element without a
+   bounding box an objectBoundingBox mask is REGISTERED ("mask all") - which is why convert_group must not reach the mask
+   of an element it is going to drop -, the next user of that mask gets a generated id, and an objectBoundingBox clip path
+   is refused before anything is generated or registered. *)
+Theorem C11_mask_nobbox_registers : forall fmt d c,
+  d_tag_ok d = true -> d_geom_ok d = true -> d_units_obb d = true -> d_cacheable d = false ->
+  String.eqb (d_id d) "" = false -> str_in (d_id d) (c_masks c) = false ->
+  mask_convert fmt d None c = (Some (d_id d), c_set_masks c (c_mask c) (d_id d :: c_masks c)).
+Proof. exact mask_nobbox_registers. Qed.
+Print Assumptions C11_mask_nobbox_registers.
+
+Theorem C11_mask_second_use_generates : forall fmt d bbox c,
+  d_tag_ok d = true -> d_geom_ok d = true -> d_cacheable d = false ->
+  String.eqb (d_id d) "" = false -> str_in (d_id d) (c_masks c) = true ->
+  forall i k, gen_id fmt (id_fuel c) "mask" (c_all_ids c) (c_mask c) = Some (i, k) ->
+  d_content d (c_set_masks c k (c_masks c)) = (c_set_masks c k (c_masks c), true) -> d_content_obb d = false ->
+  fst (mask_convert fmt d (Some bbox) c) = Some i.
+Proof. exact mask_second_use_generates. Qed.
+Print Assumptions C11_mask_second_use_generates.
+
+Theorem C11_clip_obb_nobbox_inert : forall fmt d c,
+  d_units_obb d = true -> d_cacheable d = false -> clip_convert fmt d None c = (None, c).
+Proof. exact clip_obb_nobbox_inert. Qed.
+Print Assumptions C11_clip_obb_nobbox_inert.
 
 Theorem C11_filter_facts_lock : filter_facts = [FF_NoBBoxReturnsEarly; FF_GenIdAfterRegionCheck].
 Proof. exact filter_facts_lock. Qed.
@@ -271,3 +372,53 @@ Proof. vm_compute. repeat split. Qed.
 Example C11_ex_prescan :
   gen_id (fun n => if (n =? 1)%N then "1" else "2") 5 "clipPath" ["clipPath1"; "vf_9"; "x"] 0 = Some ("clipPath2", 2%N).
 Proof. vm_compute. reflexivity. Qed.
+
+(* ---- extension round 4: the witness of dd154cd.  <rect width="0" height="10" filter="none" mask="url(#m)"/> in front of
+   <rect id="r" .. mask="url(#m)"/>, m an objectBoundingBox mask *)
+Definition ex_zero_fm : node :=
+  Node (Some T_Rect)
+    {| a_id := "vf_1"; a_display_none := false; a_ts_valid := true; a_ts_identity := true; a_req_ext := false;
+       a_features_known := true; a_syslang_ok := true; a_opacity := 1; a_blend_normal := true; a_isolate := false;
+       a_clip := None; a_mask := Some "m"; a_filter := FA_NoneValue;
+       a_width := 0; a_height := 10; a_r := 0; a_rx := 0; a_ry := 0; a_npoints := 0 |} NNil.
+Definition ex_masked : node :=
+  Node (Some T_Rect)
+    {| a_id := "r"; a_display_none := false; a_ts_valid := true; a_ts_identity := true; a_req_ext := false;
+       a_features_known := true; a_syslang_ok := true; a_opacity := 1; a_blend_normal := true; a_isolate := false;
+       a_clip := None; a_mask := Some "m"; a_filter := FA_Absent;
+       a_width := 10; a_height := 10; a_r := 0; a_rx := 0; a_ry := 0; a_npoints := 0 |} NNil.
+Definition ex_masks : defs_t := [("m", mask_obb "m")].
+Definition ex_st0 : sim_state := {| ss_in_clip := false; ss_valid_links := [] |}.
+Definition ex_genv0 : genv := {| ge_cache := empty_cache; ge_g := root_group; ge_bbox := None; ge_clip := None; ge_mask := None; ge_filters := []; ge_pre := None |}.
+Definition old_group_steps : list group_step :=
+  [GS_EmptyNoFilterAttr; GS_ObjectBBox; GS_Clip; GS_Mask; GS_Filters; GS_NotRequired; GS_EmptyNoFilters; GS_Boxes].
+(* the witness is junk in the sense of the property, outside `ignorable`; with the source's steps it leaves nothing and the
+   rendered rect keeps the mask id "m" ... *)
+Example C11_ex_zero_filter_mask_noop :
+  spec_nonrendered ex_zero_fm = true /\ ignorable ex_zero_fm = false /\
+  simc_children fmt9 [] ex_masks (NCons ex_zero_fm (NCons ex_masked NNil)) true false ex_st0 empty_cache root_group =
+  simc_children fmt9 [] ex_masks (NCons ex_masked NNil) true false ex_st0 empty_cache root_group /\
+  c_masks (fst (simc_children fmt9 [] ex_masks (NCons ex_masked NNil) true false ex_st0 empty_cache root_group)) = ["m"].
+Proof. vm_compute. repeat split. Qed.
+(* ... whereas the order of convert_group before dd154cd dropped the element only after "m" had been registered *)
+Example C11_ex_old_order_registers :
+  fst (fst (group_run sim_state ss_in_clip (simc_bbox) (res_clip_m fmt9 []) (res_mask_m fmt9 ex_masks) sim_filter
+                      (Some T_Rect) (node_attrs ex_zero_fm) ex_st0 false root_group old_group_steps ex_genv0)) <> empty_cache /\
+  group_run sim_state ss_in_clip (simc_bbox) (res_clip_m fmt9 []) (res_mask_m fmt9 ex_masks) sim_filter
+            (Some T_Rect) (node_attrs ex_zero_fm) ex_st0 false root_group group_steps ex_genv0 = (empty_cache, root_group, None).
+Proof. split; [vm_compute; discriminate | vm_compute; reflexivity]. Qed.
+(* a second user of an objectBoundingBox mask receives mask1 *)
+Example C11_ex_second_user_mask1 :
+  og_ch (snd (simc_children fmt9 [] ex_masks (NCons ex_masked (NCons ex_masked NNil)) true false ex_st0 empty_cache root_group)) =
+  [OGroup "" {| gp_opacity := 1; gp_ts_identity := true; gp_blend_normal := true; gp_isolate := false; gp_clip := None; gp_mask := Some "m"; gp_filters := [] |} [OLeaf T_Path "r"];
+   OGroup "" {| gp_opacity := 1; gp_ts_identity := true; gp_blend_normal := true; gp_isolate := false; gp_clip := None; gp_mask := Some "mask1"; gp_filters := [] |} [OLeaf T_Path "r"]].
+Proof. vm_compute. reflexivity. Qed.
+Example C11_ex_insJ :
+  insJ (junk_ok sim_state sim_filter) (Node (Some T_G) ex_attrs (NCons ex_masked NNil))
+       (Node (Some T_G) ex_attrs (NCons ex_zero_fm (NCons ex_masked (NCons ex_f26 NNil)))).
+Proof.
+  apply insJ_intro; [discriminate|]. cbn.
+  apply ilJ_junk; [split; [vm_compute; reflexivity | intros _ st c'; vm_compute; auto]|].
+  apply ilJ_cons; [apply insJ_same|].
+  apply ilJ_junk; [split; [vm_compute; reflexivity | intros H; vm_compute in H; discriminate]|]. apply ilJ_nil.
+Qed.
